@@ -6,6 +6,8 @@ CONSTANTS
   MaxTdErr = 1000
   MaxAttempts = 50
   AllowShutdown = TRUE
+  NContents = 4
+  FreshOnly = TRUE
   Preexisting = FALSE
   Atomic = TRUE
   MaxStimuli = 100000
